@@ -453,15 +453,43 @@ fn drain_async(file: &[u8], workers: usize, sched: Vec<Poll1>, fallback: usize) 
 
 /// a valid file cut at an arbitrary offset, or followed by a few stray bytes
 fn damaged_case(ctx: &mut Ctx, sub: u64) {
+    damaged_case_at(ctx, sub, None);
+}
+
+/// `forced = Some((k, d))`: the file of `sub` cut `d` bytes into block `k` (replay word `damagedat`)
+fn damaged_case_at(ctx: &mut Ctx, sub: u64, forced: Option<(usize, usize)>) {
     let mut rng = Rng::new(sub);
-    let case = format!("damaged {sub}");
-    let (mut file, _) = gen_file(&mut rng);
+    let case = match forced {
+        None => format!("damaged {sub}"),
+        Some((k, d)) => format!("damagedat {sub} {k} {d}"),
+    };
+    let (mut file, layout) = gen_file(&mut rng);
     if file.len() > 200_000 {
         return;
     }
     let mut judged = true;
-    let how = match rng.below(3) {
-        0 => {
+    let pick = rng.below(4);
+    let how = match pick {
+        _ if forced.is_some() => {
+            let (k, d) = forced.unwrap();
+            if k >= layout.len() {
+                return;
+            }
+            let start: usize = layout[..k].iter().map(|b| b.csize).sum();
+            let cut = (start + d).min(file.len());
+            file.truncate(cut);
+            format!("cut at {cut} = block {k} + {d}")
+        }
+        3 if !layout.is_empty() => {
+            // a cut at and around the end of a block HEADER: the trailing fragment is 0..=30 bytes, in
+            // particular exactly the 18 header bytes with no payload
+            let k = rng.below(layout.len() as u64) as usize;
+            let start: usize = layout[..k].iter().map(|b| b.csize).sum();
+            let cut = (start + rng.below(31) as usize).min(file.len());
+            file.truncate(cut);
+            format!("cut at {cut} = block {k} + {}", cut - start)
+        }
+        0 | 3 => {
             let cut = rng.below(file.len() as u64 + 1) as usize;
             file.truncate(cut);
             format!("cut at {cut}")
@@ -508,9 +536,14 @@ fn damaged_case(ctx: &mut Ctx, sub: u64) {
             return;
         }
         if se != "EOF" {
-            // the sync path REJECTS this input: outside the property's quantifier ("inputs accepted by the
-            // sync path"). How the async reader fails on it (or that it does not) is recorded, not judged.
+            // the sync path REJECTS this input. The property asks for "the same … errors": WHICH error the
+            // async reader reports on a truncated stream is recorded, not judged (the two paths name the
+            // same truncation differently); that it reports one is judged — a truncated stream the sync
+            // reader rejects must not read as a complete one through the async reader.
             ctx.bump(&format!("damaged_rejected_by_sync_{se}_async_{ae}"));
+            if ae == "EOF" {
+                ctx.fail("bgzf-async-accepts-truncated", format!("{how}: the sync reader rejects the stream ({s}), the async reader reports a clean end of stream ({a}) (bytes:crc32 then how the stream ended; workers {workers}, schedule {sname})"), case);
+            }
             return;
         }
         // The sync frame reader treats a trailing fragment shorter than a block header (< 18 bytes) as the
@@ -735,6 +768,11 @@ pub fn run(ctx: &mut Ctx) {
             Some("rd") => rd_check(ctx, &rd_case_of(sub), &format!("rd {sub}"), false),
             Some("wr") => wr_check(ctx, &wr_case_of(sub), &format!("wr {sub}"), false),
             Some("damaged") => damaged_case(ctx, sub),
+            Some("damagedat") => {
+                let k: usize = case.get(2).and_then(|s| s.parse().ok()).unwrap_or(0);
+                let d: usize = case.get(3).and_then(|s| s.parse().ok()).unwrap_or(0);
+                damaged_case_at(ctx, sub, Some((k, d)));
+            }
             Some("corpus") => {
                 rd_corpus(ctx);
                 wr_corpus(ctx);
@@ -800,6 +838,17 @@ pub fn run(ctx: &mut Ctx) {
     let n = ctx.n(60, 3_000);
     for it in 0..n {
         damaged_case(ctx, ctx.seed.wrapping_mul(16_000_211).wrapping_add(it));
+    }
+    // every cut from 0 to 30 bytes into the first, second and last-but-one block of a few files: the
+    // trailing fragment passes through "shorter than a header", "exactly a header", "header + part of
+    // the payload"
+    for f in 0..ctx.n(2, 40) {
+        let sub = ctx.seed.wrapping_mul(16_000_231).wrapping_add(f);
+        for k in [0usize, 1, 2] {
+            for d in 0..=30usize {
+                damaged_case_at(ctx, sub, Some((k, d)));
+            }
+        }
     }
     formats::run(ctx);
     super::c16_fmtmodel::run(ctx);
